@@ -98,10 +98,13 @@ Side(s, p) ==
                                     m == (RVal(p[1]) + r) % (2 * s[3]) IN
                                 IF m = 0 /\ Inexact(p, 1) THEN Undef
                                 ELSE Side(s[2], << <<m - r, 1>>, p[2], p[3], p[4]>>)
+    \* revolve about the vertical line x = s[3] ("X offset about which to revolve"): a point at distance q from that
+    \* line belongs to the solid iff the profile contains (s[3] + q, y)
     [] s[1] = "revolvey" -> IF ~RInt(p[1]) \/ ~RInt(p[3]) THEN Undef
-                            ELSE LET q == ISqrt(RVal(p[1]) * RVal(p[1]) + RVal(p[3]) * RVal(p[3])) IN
+                            ELSE LET dx == RVal(p[1]) - s[3]
+                                     q == ISqrt(dx * dx + RVal(p[3]) * RVal(p[3])) IN
                                  IF q < 0 THEN Undef
-                                 ELSE Side(s[2], << <<q, 1>>, p[2], p[3],
+                                 ELSE Side(s[2], << <<s[3] + q, 1>>, p[2], p[3],
                                                     Mark(p, IF Inexact(p, 1) \/ Inexact(p, 3) THEN {1} ELSE {}, {})>>)
     [] s[1] = "extrudez" -> SMax(Side(s[2], <<p[1], p[2], <<0, 1>>, Mark(p, {}, {3})>>), Slab(p[3], s[3], s[4]))
     [] s[1] = "union" -> SideAll(s[2], p, 1, TRUE)
